@@ -4,7 +4,7 @@ use crate::c01::tags_for;
 use crate::dump::{self, gids, sorted};
 use crate::gen::{self, Facts, Opts};
 use crate::rng::Rng;
-use crate::v::{b, bytes, ln, n, V};
+use crate::v::{b, bytes, ln, n, nu, V};
 use crate::world::{self, World};
 use crate::Case;
 use hpo::annotations::{AnnotationId, Disease, GeneId, OmimDiseaseId, OrphaDiseaseId};
@@ -453,4 +453,71 @@ fn ensure_adds(mut s: Script, f: &Facts) -> Script {
         }
     }
     s
+}
+
+/// C03f: InformationContent::set_gene / set_omim_disease / set_orpha_disease on arbitrary (total, current) pairs
+pub fn cases_c03f(rng: &mut Rng, count: usize, tier: &str) -> Vec<Case> {
+    use hpo::term::InformationContent;
+    let mut out = vec![];
+    let per_case = if tier == "thorough" { 400 } else { 200 };
+    while out.len() < count {
+        let mut pairs: Vec<(usize, usize)> = vec![
+            (0, 0), (0, 5), (5, 0), (1, 1), (2, 1), (65535, 65535), (65535, 65534), (65535, 1), (65536, 1), (65536, 65536),
+            (1, 65536), (65535, 65536), (70000, 3), (3, 70000), (30000, 29998), (10001, 10000), (20000, 19999),
+        ];
+        while pairs.len() < per_case {
+            let total = match rng.below(5) {
+                0 => rng.range(1, 40) as usize,
+                1 => rng.range(1, 2000) as usize,
+                2 => rng.range(9000, 65535) as usize,
+                3 => rng.range(60000, 65540) as usize,
+                _ => rng.range(1, 65535) as usize,
+            };
+            let current = match rng.below(6) {
+                0 => total,
+                1 => total.saturating_sub(rng.range(1, 4) as usize),
+                2 => rng.range(0, 3) as usize,
+                3 => total + rng.range(1, 3) as usize,
+                _ => rng.range(0, total as u64) as usize,
+            };
+            pairs.push((total, current));
+        }
+        let mut seen = std::collections::BTreeMap::new();
+        let mut near_total = 0usize;
+        let obs: Vec<V> = pairs
+            .iter()
+            .map(|(total, current)| {
+                if *total > 0 && *current > 0 && *total <= 65535 && *current <= 65535 {
+                    let q = (*current as u16 as f32) / (*total as u16 as f32);
+                    seen.insert(crate::dump::f32_bits(q), crate::dump::f32_bits(q.ln()));
+                    if *total > 10000 && *current < *total && total - current <= 3 {
+                        near_total += 1;
+                    }
+                }
+                let enc = |r: hpo::HpoResult<()>, v: f32| match r {
+                    Ok(()) => V::T(vec![n(0u32), n(crate::dump::f32_bits(v))]),
+                    Err(hpo::HpoError::TryFromIntError(_)) => V::T(vec![n(1u32), n(1u32)]),
+                    Err(_) => V::T(vec![n(1u32), n(99u32)]),
+                };
+                let mut ic = InformationContent::default();
+                let g = ic.set_gene(*total, *current);
+                let g = enc(g, ic.gene());
+                let mut ic = InformationContent::default();
+                let m = ic.set_omim_disease(*total, *current);
+                let m = enc(m, ic.omim_disease());
+                let mut ic = InformationContent::default();
+                let r = ic.set_orpha_disease(*total, *current);
+                let r = enc(r, ic.orpha_disease());
+                V::T(vec![g, m, r])
+            })
+            .collect();
+        let tbl = V::L(seen.into_iter().map(|(a, r)| V::T(vec![n(a), n(r)])).collect());
+        let input = V::T(vec![V::L(pairs.iter().map(|(t, c)| V::T(vec![nu(*t), nu(*c)])).collect()), tbl]);
+        let mut tags = vec!["nt"];
+        if near_total > 0 {
+            tags.push("count_just_below_large_total");
+        }
+        out.push(Case { input, obs: V::L(obs), tags });
+    }
+    out
 }
